@@ -144,7 +144,13 @@ def histogram2d(data1, data2, bins=None, **kwargs):
     """Facade function to create 2D histogram using dask."""
     # TODO: currently very unoptimized! for non-dasks
     if "axis_names" not in kwargs:
-        if hasattr(data1, "name") and hasattr(data2, "name"):
+        if (
+            hasattr(data1, "name")
+            and hasattr(data2, "name")
+            and not hasattr(data1, "dask")
+            and not hasattr(data2, "dask")
+        ):
+            # (the `name` of a dask array is the key of its task graph, not a label)
             kwargs["axis_names"] = [data1.name, data2.name]
     if not hasattr(data1, "dask"):
         data1 = dask.array.from_array(data1, chunks=data1.size() / 100)
